@@ -229,7 +229,15 @@ def _isolation_variant(base, label):
             return []          # whether the call may raise is not an isolation question
 
         def replay(self, c):
-            return None
+            # the base replay checks more than isolation: only its isolation findings (result is the receiver, an input changed,
+            # a write into the result reached an input) count here; anything else is not an isolation verdict
+            if base.__name__ != 'SimpleOp':
+                return None
+            r = base.replay(self, c)
+            if r is None or r[0]:
+                return r
+            iso = [m for m in (r[1].get('failed') or []) if 'receiver itself' in m or 'input variable' in m]
+            return (False, dict(r[1], failed=iso)) if iso else None
     ISO.__name__ = 'ISO_' + base.__name__
     ISO.__doc__ = 'isolation of %s: new file, fresh buffers, inputs unchanged (files of arbitrary size)' % label
     return ISO
